@@ -8,3 +8,4 @@ import UtapModel.Props.C18Float
 import UtapModel.Gen.PrinterWitness
 import UtapModel.Props.C07Subst
 import UtapModel.Props.C04Rate
+import UtapModel.Props.C16Sync
